@@ -892,7 +892,7 @@ class ArgumentParser(ParserDeprecations, ActionsContainer, ArgumentLinking, argp
 
         if fsspec_support:
             try:
-                path_sw = Path(path, mode="sw")
+                path_sw = Path(path, mode="s")
             except TypeError:
                 pass
             else:
